@@ -2,6 +2,7 @@
 import sys
 
 from sa import report, rules_repr as RR2, rules_state as RS, rules_opts as RO
+from sa import rules_order as ROR
 
 
 def run(ctx, repo):
@@ -19,6 +20,10 @@ def run(ctx, repo):
     RS.r_doc_reset(ctx, repo, entries=[e for e in RS.DOC_ENTRIES if e[0] in ('serializer.Serializer', '_yaml.CEmitter',
                                                                              'representer.BaseRepresenter')])
     RR2.r_insertion_order_load(ctx, repo)
+
+    # dump(load(dump(x))) == dump(x) needs the loader to give back the sharing the first dump wrote as anchors/aliases:
+    # one object per node, whatever its kind
+    ROR.r_construct_cache(ctx, repo)
 
 
 if __name__ == '__main__':
